@@ -1,8 +1,8 @@
 INIT Init
 NEXT Next
 CONSTANTS
-  Lens = {5, 6, 7}
-  Gaps = {1, 2, 3}
+  Lens = {5, 6}
+  Gaps = {1, 2}
   Alphas <- AlphasT
   YPs = {1, 2}
 INVARIANT ModelSatisfiesP01
